@@ -17,6 +17,9 @@ func init() {
 }
 
 func runC04(w *World, r *Report) {
+	defer catalogStatePairs(w, r, "C04-R11")
+	defer c04MarkDiscipline(w, r, "C04-R9")
+	defer c04PerShardMaps(w, r, "C04-R10")
 	r.Rule("C04-R1", "once-only signals", "sends on a channel of *model.BarrierSignal (or inside OnceWriteChan methods) occur only in a function literal passed to sync.Once.Do; NewOnceWriteChan is called inside the per-shard callback of StartReadCollection and inside AddPartitionInfo", 3)
 	r.Rule("C04-R2", "drop requests come only from a completed barrier", "ReplicateAPIEvent literals with EventType DropCollection/DropPartition exist only in completion callbacks passed to NewBarrier and in RecoveryMetaMsg (under IsReady); in NewBarrier's goroutine the call of the completion callback is not reachable from inside the counting loop except through its exit", 5)
 	r.Rule("C04-R3", "barrier arity is the shard count", "the count argument of NewBarrier derives from the length of a shard list declared in the collection's catalog info, not from a local snapshot of registered handlers", 2)
@@ -517,4 +520,205 @@ func blockReachIncl(b *ssa.BasicBlock) map[*ssa.BasicBlock]bool {
 	m := blockReach(b, nil)
 	m[b] = true
 	return m
+}
+
+// catalogStatePairs (shared by C04, C08, C13, C15): the source catalog has two states for "going away" (Dropping = 2,
+// Dropped = 3) and every decision of the reader treats them alike; inside GetAllDroppedObj the same holds for the two
+// live states (Created = 0, Creating = 1). A comparison of a catalog State with one constant of a pair therefore has a
+// sibling comparison of the same value with the other constant, with the same operator, next to it (`||` / `&&` chain).
+func catalogStatePairs(w *World, r *Report, rule string) {
+	r.Rule(rule, "catalog states are tested in pairs", "every comparison of a pb.CollectionInfo/PartitionInfo State with Dropped has the sibling comparison with Dropping (same value, same operator, adjacent in the condition) and vice versa, in all of core/reader; in GetAllDroppedObj also Created with Creating", 9)
+	n := 0
+	for _, fn := range w.RepoFuncs() {
+		if fn.Pkg == nil || fn.Pkg.Pkg.Path() != pkgReader {
+			continue
+		}
+		livePairs := rootFunc(fn).Name() == "GetAllDroppedObj"
+		type cmp struct {
+			bo  *ssa.BinOp
+			val string
+			c   int64
+		}
+		var cmps []cmp
+		eachInstr(fn, func(in ssa.Instruction) {
+			bo, ok := in.(*ssa.BinOp)
+			if !ok || (bo.Op != token.EQL && bo.Op != token.NEQ) {
+				return
+			}
+			x, y := bo.X, bo.Y
+			if _, isC := x.(*ssa.Const); isC {
+				x, y = y, x
+			}
+			c, isC := y.(*ssa.Const)
+			if !isC || c.Value == nil {
+				return
+			}
+			tn := bareTypeName(x.Type())
+			if tn != "CollectionState" && tn != "PartitionState" {
+				return
+			}
+			cmps = append(cmps, cmp{bo, tn + ":" + w.sigString(x, 0), c.Int64()})
+		})
+		for _, c := range cmps {
+			var partner int64
+			switch {
+			case c.c == 2:
+				partner = 3
+			case c.c == 3:
+				partner = 2
+			case livePairs && c.c == 0:
+				partner = 1
+			case livePairs && c.c == 1:
+				partner = 0
+			default:
+				continue
+			}
+			n++
+			found := false
+			for _, d := range cmps {
+				if d.bo == c.bo || d.val != c.val || d.c != partner || d.bo.Op != c.bo.Op {
+					continue
+				}
+				// adjacent: one test's block is a direct successor of the other's, or the same block
+				a, b := c.bo.Block(), d.bo.Block()
+				adj := a == b
+				for _, s := range a.Succs {
+					if s == b {
+						adj = true
+					}
+				}
+				for _, s := range b.Succs {
+					if s == a {
+						adj = true
+					}
+				}
+				if adj {
+					found = true
+				}
+			}
+			names := map[int64]string{0: "Created", 1: "Creating", 2: "Dropping", 3: "Dropped"}
+			r.Check(found, rule, fmt.Sprintf("%s | State %s %s has its sibling test #%d", shortFn2(fn), c.bo.Op, names[c.c], n), c.bo.Pos(), "tested together with "+names[partner], "the state is compared with "+names[c.c]+" but not, next to it, with "+names[partner]+": an object caught in the other state of the pair is treated like the opposite kind (a collection still Dropping at restart is started and created downstream again, so its drop is replayed twice; a namesake still Creating is not seen as the live incarnation, so the drop horizon covers the new incarnation's operations)")
+		}
+	}
+}
+
+// c04MarkDiscipline (C04-R9): the manager's dropped-collection / dropped-partition sets make every shard skip the
+// object's messages. They may be filled only (a) on the branch on which the drop request was handed over, (b) for an
+// object the catalog already reports as Dropping/Dropped when it is (not) started, (c) by the explicit
+// AddDroppedCollection / AddDroppedPartition API.
+func c04MarkDiscipline(w *World, r *Report, rule string) {
+	r.Rule(rule, "who may mark an object dropped", "every Store into replicateChannelManager.droppedCollections / droppedPartitions is made by AddDroppedCollection/AddDroppedPartition, under a Dropping/Dropped test of the catalog state, or on the sent branch of the select that hands the drop request over (never when a single shard merely reached the drop message)", 4)
+	n := 0
+	for _, fn := range w.RepoFuncs() {
+		if fn.Pkg == nil || fn.Pkg.Pkg.Path() != pkgReader {
+			continue
+		}
+		eachInstr(fn, func(in ssa.Instruction) {
+			c, ok := in.(*ssa.Call)
+			if !ok || callSym(c.Common()).name != "Store" {
+				return
+			}
+			rv := callRecv(c.Common())
+			if rv == nil {
+				return
+			}
+			ap := w.accessPath(rv)
+			if !strings.HasSuffix(ap, ".droppedCollections") && !strings.HasSuffix(ap, ".droppedPartitions") {
+				return
+			}
+			n++
+			table := ap[strings.LastIndex(ap, ".")+1:]
+			cons := fmt.Sprintf("%s | %s.Store #%d", shortFn2(fn), table, n)
+			root := rootFunc(fn).Name()
+			if fn.Parent() == nil && (root == "AddDroppedCollection" || root == "AddDroppedPartition") {
+				r.OK(rule, cons, c.Pos(), "the explicit API")
+				return
+			}
+			okWhy := ""
+			for _, b := range fn.Blocks {
+				cond, t, f, isIf := ifSuccs(b)
+				if !isIf {
+					continue
+				}
+				onT := t == c.Block() || (t.Dominates(c.Block()) && len(t.Preds) == 1)
+				onF := f == c.Block() || (f.Dominates(c.Block()) && len(f.Preds) == 1)
+				for _, v := range backSlice(cond, SliceOpts{MaxDepth: 4}) {
+					switch x := v.(type) {
+					case *ssa.BinOp:
+						if x.Op == token.EQL && onT {
+							if k, isC := x.Y.(*ssa.Const); isC && k.Value != nil && (k.Int64() == 2 || k.Int64() == 3) {
+								if tn := bareTypeName(x.X.Type()); tn == "CollectionState" || tn == "PartitionState" {
+									okWhy = "under a Dropping/Dropped test of the catalog state"
+								}
+							}
+						}
+					case *ssa.Extract:
+						// index of a select with a send case
+						if sel, isSel := x.Tuple.(*ssa.Select); isSel && x.Index == 0 && (onT || onF) {
+							for _, st := range sel.States {
+								if st.Dir == types.SendOnly {
+									okWhy = "on a branch chosen by the select that sends the drop request"
+								}
+							}
+						}
+					}
+				}
+			}
+			r.Check(okWhy != "", rule, cons, c.Pos(), okWhy, "the object is marked dropped where neither the catalog reports it as dropped nor the drop request was handed over (e.g. when the first shard reached the drop message): the other shards then skip their own drop message and the data before it, the barrier never completes and the drop is never replayed")
+		})
+	}
+	if n == 0 {
+		r.Undecided(rule, "droppedCollections / droppedPartitions", 0, "no Store into the dropped sets found")
+	}
+}
+
+// c04PerShardMaps (C04-R10): each shard's TargetCollectionInfo has its own partition-barrier and dropped-partition
+// tables (a partition drop is signalled once per shard; a shared table is filled by the first shard only).
+func c04PerShardMaps(w *World, r *Report, rule string) {
+	r.Rule(rule, "per-shard barrier tables are allocated per shard", "in StartReadCollection's per-channel callback the TargetCollectionInfo handed to startReadChannel has PartitionBarrierChan and DroppedPartition stored from a make(map…) evaluated inside the callback (not copied from a template built once for the collection)", 2)
+	fn := w.Func(pkgReader, "replicateChannelManager", "StartReadCollection")
+	if fn == nil {
+		r.Undecided(rule, "StartReadCollection", 0, "anchor not found")
+		return
+	}
+	n := 0
+	for _, g := range familyOf(fn).Funcs {
+		eachInstr(g, func(in ssa.Instruction) {
+			c, ok := in.(*ssa.Call)
+			if !ok || callSym(c.Common()).name != "startReadChannel" {
+				return
+			}
+			args := callArgs(c.Common())
+			if len(args) < 3 {
+				return
+			}
+			obj := baseObject(familyOf(fn), args[2])
+			al, isAl := obj.(*ssa.Alloc)
+			if !isAl {
+				r.Undecided(rule, shortFn2(g)+" | startReadChannel target info", c.Pos(), "the TargetCollectionInfo argument is not a locally built struct")
+				return
+			}
+			for _, field := range []string{"PartitionBarrierChan", "DroppedPartition"} {
+				n++
+				good, why := false, "the field is never stored in the callback (the struct is a copy of a template: all shards share one table)"
+				for _, fs := range fieldStoresOn(familyOf(fn), al) {
+					if fs.Field == nil || fs.Field.Name() != field {
+						continue
+					}
+					if mm, isMM := fs.Store.Val.(*ssa.MakeMap); isMM && mm.Parent() == g && al.Parent() == g {
+						good = true
+					} else {
+						why = "the table stored is not a make(map…) evaluated in the per-channel callback"
+					}
+				}
+				if al.Parent() != g {
+					good, why = false, "the struct itself is built outside the per-channel callback"
+				}
+				r.Check(good, rule, fmt.Sprintf("%s | TargetCollectionInfo.%s per shard", shortFn2(g), field), c.Pos(), "make(map…) inside the callback", why+": only the first shard registers a partition barrier signal and the first shard's drop removes the shared entry, so the other shards raise an error and the drop-partition request is never issued")
+			}
+		})
+	}
+	if n == 0 {
+		r.Undecided(rule, "StartReadCollection | startReadChannel", fn.Pos(), "call not found")
+	}
 }
